@@ -124,6 +124,10 @@ impl Parse for FmtAttribute {
             args: input.parse_terminated(FmtArgument::parse, token::Comma)?,
         };
         parsed.args.pop_punct();
+        if parsed.args.is_empty() {
+            // A trailing comma after the sole literal separates nothing.
+            parsed.comma = None;
+        }
         Ok(parsed)
     }
 }
